@@ -264,7 +264,7 @@ func matchKnown(known []core.Finding, f Finding) *core.Finding {
 }
 
 func inputKey(l *Line) [32]byte {
-	return sha256.Sum256([]byte(l.K + canon(l.Def) + canon(l.Log) + canon(l.In)))
+	return sha256.Sum256([]byte(l.K + canon(l.Def) + canon(l.Log) + canon(l.In) + canon(l.Defs) + canon(l.Logs)))
 }
 
 // Check runs the C17 check.
@@ -409,6 +409,8 @@ func Check(c *core.Ctx) int {
 			nontrivial = l.Out.Valid && l.Out.Match != "skip"
 		case "dec":
 			nontrivial = l.Desc.Mut.M != "none"
+		case "fetch":
+			nontrivial = len(l.Defs) > 1
 		}
 		if nontrivial {
 			distinct[inputKey(l)] = true
@@ -428,9 +430,9 @@ func Check(c *core.Ctx) int {
 		"evaluations": len(res.Lines), "distinct_nontrivial": len(distinct), "samples": samples,
 		"exhaustive": !sampled,
 		"rule": "TLC enumerates the finite case domain of TriggerMatchMC for the tier (definition cases; per definition its logs; per decoder base every " +
-			"structural mutation class) and checks the C17 monitors on the code-shaped layer for every case; every case (quick tier: all definition/decoder cases " +
+			"structural mutation class; sets of 2-3 definitions active together for TriggerProcessor.FetchEvents over fakepg + fakeeth) and checks the C17 monitors on the code-shaped layer for every case; every case (quick tier: all definition/decoder cases " +
 			"and a seeded sample of the match cases if the domain exceeds the cap) is concretised with VERIF_SEED fillers and executed on the real " +
-			"Validate/MarshalBytes/UnmarshalBytes/ToFilterQuery/Match in a guarded worker process; TLC validates every recorded line (pass A monitors, pass B conformance). " +
+			"Validate/MarshalBytes/UnmarshalBytes/ToFilterQuery/Match/TriggerProcessor.FetchEvents in a guarded worker process; TLC validates every recorded line (pass A monitors, pass B conformance). " +
 			"distinct_nontrivial = distinct concrete inputs (hash of kind, definition, log, decoder input) among definition cases, match cases on which the real " +
 			"Validate passed and Match was called, and decoder cases with a mutated input.",
 		"cases_by_kind": byKind, "monitor_counters": res.Cnt, "tlc_enumeration_wall_s": g.Wall,
@@ -459,7 +461,8 @@ func Check(c *core.Ctx) int {
 		fmt.Printf("INCONCLUSIVE: %d spec-level counterexamples were not reproduced by the real code (the code-shaped layer misrepresents the code)\n", unreproduced)
 		return core.ExitInconclusive
 	}
-	if res.Cnt["semT"] == 0 || res.Cnt["semF"] == 0 || res.Cnt["filt"] == 0 || res.Cnt["rt"] == 0 || res.Cnt["decok"] == 0 || res.Cnt["decrej"] == 0 {
+	if res.Cnt["semT"] == 0 || res.Cnt["semF"] == 0 || res.Cnt["filt"] == 0 || res.Cnt["rt"] == 0 || res.Cnt["decok"] == 0 || res.Cnt["decrej"] == 0 ||
+		res.Cnt["fetch"] == 0 || res.Cnt["fired"] == 0 {
 		fmt.Printf("INCONCLUSIVE: a monitor was vacuous on this run: %v\n", res.Cnt)
 		return core.ExitInconclusive
 	}
